@@ -27,6 +27,8 @@ func runC20(c *Check, tier string) {
 	ruleNoDigestInDescription(c, "R20h")
 	// the key reads exactly the files `owners` attributes to the target: one file per listed input
 	ruleR09f(c, "R20i")
+	// a dependency named twice is one edge: the direct queries print each label once
+	ruleRepeatedDependencyIsOneEdge(c, "R20j")
 }
 
 // cobraCommands maps the `Use` word of each cobra command to its Run function.
@@ -294,6 +296,15 @@ func isListExhaustedAtom(a engine.Atom) bool {
 	case "le", "lt":
 		_, ok := lenArg(a.V)
 		return ok
+	case "eq":
+		// `idx == len(xs)`: an index that only ever grows by one meets the length exactly
+		if _, ok := lenArg(a.V); ok {
+			return true
+		}
+		if a.Other != nil {
+			_, ok := lenArg(a.Other)
+			return ok
+		}
 	}
 	return false
 }
